@@ -396,12 +396,14 @@ def p_corr_affine(inp):
 
 def p_corr_negation(inp):
     xs, ys = inp
-    r0 = _corr(xs, ys)
-    r1 = _corr([-x for x in xs], ys)
-    r2 = _corr(xs, [-y for y in ys])
-    r3 = _corr([-x for x in xs], [-y for y in ys])
-    if None in (r0, r1, r2, r3):
-        return False, 'exception'
+    o = [fit_of('corr', xs, ys), fit_of('corr', [-x for x in xs], ys), fit_of('corr', xs, [-y for y in ys]),
+         fit_of('corr', [-x for x in xs], [-y for y in ys])]
+    if o[0].startswith('E:'):
+        # ill-conditioned data on which correlation_coeff raises (listed finding): negation must not change that
+        return o[1] == o[0] and o[2] == o[0] and o[3] == o[0], o
+    r0, r1, r2, r3 = [fnums(v) for v in o]
+    if None in (r1, r2, r3):
+        return False, o
     return r1[0] == -r0[0] and r2[0] == -r0[0] and r3[0] == r0[0], [r0[0], r1[0], r2[0], r3[0]]
 
 
